@@ -1,6 +1,7 @@
 /- concrete thin Mach-O images used as witnesses / non-vacuity instances in Props/C01_MachOLocate.lean and C01_MachOFull.lean
    (kept out of the Props file: every `theorem` there is audited under its top-level name) -/
 import Relic.Proofs.MachOSigned
+import Relic.Proofs.MachOGuards
 namespace Relic.Props.C01
 open Relic Relic.MachO Relic.CodeDir Relic.Binpatch
 
@@ -42,28 +43,50 @@ def fSigned (n : Nat) : Bytes :=
 
 def mSigned (n : Nat) : Markers := ⟨false, 0xfeedfacf, 136, n, 104, 32, 120, 16 + n, 120, 2 ^ 63 - 1, 136, 120⟩
 
-theorem scan_fOld : scan (fSigned 16) = .ok (mSigned 16) := by rw [scan_eq_L]; decide +kernel
-theorem sign_fOld_ok : (sign (fSigned 16) p0).isOk = true :=
+theorem scan_fOld : scanOrig (fSigned 16) = .ok (mSigned 16) := by rw [scan_eq_L]; decide +kernel
+theorem sign_fOld_ok : (signOrig (fSigned 16) p0).isOk = true :=
   (congrArg Res.isOk (sign_of_scan _ p0 _ scan_fOld)).trans (by decide +kernel)
-theorem scan_fReuse : scan (fSigned 16392) = .ok (mSigned 16392) := by rw [scan_eq_L]; decide +kernel
-theorem sign_fReuse_ok : (sign (fSigned 16392) p0).isOk = true :=
+theorem scan_fReuse : scanOrig (fSigned 16392) = .ok (mSigned 16392) := by rw [scan_eq_L]; decide +kernel
+theorem sign_fReuse_ok : (signOrig (fSigned 16392) p0).isOk = true :=
   (congrArg Res.isOk (sign_of_scan _ p0 _ scan_fReuse)).trans (by decide +kernel)
 
 /-- `fGood` with `sizeofcmds = 80`: 8 zero bytes of slack behind the only (72-byte) command -/
 def fSlack : Bytes :=
   le32 0xfeedfacf ++ le32 0 ++ le32 0 ++ le32 2 ++ le32 1 ++ le32 80 ++ le32 0 ++ le32 0 ++ leSeg 112 16 ++ zeros 8 ++ zeros 16
 def mSlack : Markers := ⟨false, 0xfeedfacf, 0, 0, 0, 32, 112, 16, 112, 2 ^ 63 - 1, 128, 112⟩
-theorem scan_fSlack : scan fSlack = .ok mSlack := by rw [scan_eq_L]; decide +kernel
-theorem sign_fSlack_ok : (sign fSlack p0).isOk = true :=
+theorem scan_fSlack : scanOrig fSlack = .ok mSlack := by rw [scan_eq_L]; decide +kernel
+theorem sign_fSlack_ok : (signOrig fSlack p0).isOk = true :=
   (congrArg Res.isOk (sign_of_scan fSlack p0 mSlack scan_fSlack)).trans (by decide +kernel)
 
-theorem scan_fGood : scan fGood = .ok mGood := by rw [scan_eq_L]; decide +kernel
-theorem scan_fSym : scan fSym = .ok mSym := by rw [scan_eq_L]; decide +kernel
+theorem scan_fGood : scanOrig fGood = .ok mGood := by rw [scan_eq_L]; decide +kernel
+theorem scan_fSym : scanOrig fSym = .ok mSym := by rw [scan_eq_L]; decide +kernel
 
-theorem sign_fGood_ok : (sign fGood p0).isOk = true :=
+theorem sign_fGood_ok : (signOrig fGood p0).isOk = true :=
   (congrArg Res.isOk (sign_of_scan fGood p0 mGood scan_fGood)).trans (by decide +kernel)
-theorem sign_fSym_ok : (sign fSym p0).isOk = true :=
+theorem sign_fSym_ok : (signOrig fSym p0).isOk = true :=
   (congrArg Res.isOk (sign_of_scan fSym p0 mSym scan_fSym)).trans (by decide +kernel)
+
+/-! ### the same images under the current `scanFile` / `Sign` (guards of F-MACHO-4 and F-MACHO-3) -/
+
+theorem scanNew_fGood : scan fGood = .ok mGood := (scan_ok_iff _ _).mpr ⟨scan_fGood, by decide +kernel⟩
+theorem scanNew_fSym : scan fSym = .ok mSym := (scan_ok_iff _ _).mpr ⟨scan_fSym, by decide +kernel⟩
+theorem scanNew_fOld : scan (fSigned 16) = .ok (mSigned 16) := (scan_ok_iff _ _).mpr ⟨scan_fOld, by decide +kernel⟩
+theorem scanNew_fReuse : scan (fSigned 16392) = .ok (mSigned 16392) := (scan_ok_iff _ _).mpr ⟨scan_fReuse, by decide +kernel⟩
+/-- the witness of F-MACHO-4 is refused by the current `scanFile` -/
+theorem scanNew_fSlack : scan fSlack = .err "slack" :=
+  scan_slack_refused fSlack mSlack scan_fSlack rfl (by decide +kernel)
+
+/-- a success of the old `Sign` on an image whose (current) scan is known and on which the size guard does not fire is a
+    success of the current `Sign` with the same result -/
+theorem signNew_of (f : Bytes) (m : Markers) (so : SignOut) (hso : signOrig f p0 = .ok so) (ho : scanOrig f = .ok m)
+    (hn : scan f = .ok m) (hr : ¬ estRange m (hashSizeOf p0.hash))
+    (hg : ¬ sizeGuard m (estI m (hashSizeOf p0.hash) ((p0.entitlement.map (·.length)).getD 0)
+      ((p0.requirements.map (·.length)).getD 0))) : sign f p0 = .ok so := by
+  obtain ⟨_, _, _, hpl, _⟩ := sign_inv f p0 so hso
+  have hm : so.plan.m = m := by
+    have := (plan_inv f _ _ _ _ hpl).1
+    rw [ho] at this; injection this with this; exact this.symm
+  exact sign_of_orig f p0 so hso (by rw [hm]; exact hn) (by rw [hm]; exact hr) (by rw [hm]; exact hg)
 
 end Demo
 
